@@ -177,31 +177,33 @@ def char_content(kind, s):
 
 
 # ------------------------------------------------------------------ choosers
+# Every choice point is identified by a path into the (T, v) tree, so that a recorded set of decisions can be
+# replayed even when one feature of the encoding is changed on purpose (see Replay).
 
 class Der(object):
     name = 'DER'
     canonical = True
     indef = False
 
-    def indefinite(self, where):
+    def indefinite(self, where, T=None, path=''):
         return False
 
-    def len_form(self, n):
+    def len_form(self, n, path=''):
         return 0, False
 
-    def true_octet(self):
+    def true_octet(self, path=''):
         return 0xff
 
-    def segments(self, nbytes, is_bits):
+    def segments(self, nbytes, is_bits, path=''):
         return None
 
-    def emit_default(self):
+    def emit_default(self, path=''):
         return False
 
-    def real_shift(self):
+    def real_shift(self, path=''):
         return 0
 
-    def permute(self, n, what):
+    def permute(self, n, what, path=''):
         return None
 
 
@@ -209,10 +211,10 @@ class Cer(Der):
     name = 'CER'
     indef = True
 
-    def indefinite(self, where):
+    def indefinite(self, where, T=None, path=''):
         return True
 
-    def segments(self, nbytes, is_bits):
+    def segments(self, nbytes, is_bits, path=''):
         if nbytes <= 1000:
             return None
         out = []
@@ -232,13 +234,13 @@ class Fixed(Der):
         self.true = true
         self.name = name or 'BER(indef=%s,chunk=%d)' % (indef, chunk)
 
-    def indefinite(self, where):
+    def indefinite(self, where, T=None, path=''):
         return self.indef
 
-    def true_octet(self):
+    def true_octet(self, path=''):
         return self.true
 
-    def segments(self, nbytes, is_bits):
+    def segments(self, nbytes, is_bits, path=''):
         if not self.chunk or nbytes <= self.chunk:
             return None
         out = []
@@ -249,86 +251,151 @@ class Fixed(Der):
 
 
 class Recording(object):
-    """Wraps a chooser and records which choice points were taken non-canonically."""
+    """Wraps a chooser; records every decision under its path (script) and which choice points were taken
+    non-canonically (feat)."""
     def __init__(self, inner):
         self.inner = inner
         self.canonical = inner.canonical
         self.name = inner.name
         self.feat = {}
+        self.script = {}
 
     def _note(self, k):
         self.feat[k] = self.feat.get(k, 0) + 1
 
-    def indefinite(self, where):
-        r = self.inner.indefinite(where)
+    def indefinite(self, where, T=None, path=''):
+        r = self.inner.indefinite(where, T, path)
         self._note('indef' if r else 'def')
+        self.script['I' + path] = bool(r)
         return r
 
-    def len_form(self, n):
-        pad, fl = self.inner.len_form(n)
+    def len_form(self, n, path=''):
+        pad, fl = self.inner.len_form(n, path)
         if pad or (fl and n < 0x80):
             self._note('overlong_len')
+        self.script['L' + path] = [pad, fl]
         return pad, fl
 
-    def true_octet(self):
-        r = self.inner.true_octet()
+    def true_octet(self, path=''):
+        r = self.inner.true_octet(path)
         if r not in (1, 0xff):
             self._note('odd_true')
+        self.script['T' + path] = r
         return r
 
-    def segments(self, nbytes, is_bits):
-        r = self.inner.segments(nbytes, is_bits)
+    def segments(self, nbytes, is_bits, path=''):
+        r = self.inner.segments(nbytes, is_bits, path)
         if r is not None:
             self._note('segmented')
             if any(s is not None for _, s in r):
                 self._note('nested_segments')
             if len({n for n, _ in r[:-1]}) > 1:
                 self._note('uneven_segments')
+            if any(n == 0 for n, _ in r):
+                self._note('empty_segment')
+        self.script['S' + path] = r
         return r
 
-    def emit_default(self):
-        r = self.inner.emit_default()
+    def emit_default(self, path=''):
+        r = self.inner.emit_default(path)
         if r:
             self._note('explicit_default')
+        self.script['D' + path] = bool(r)
         return r
 
-    def real_shift(self):
-        r = self.inner.real_shift()
+    def real_shift(self, path=''):
+        r = self.inner.real_shift(path)
         if r:
             self._note('real_shift')
+        self.script['R' + path] = r
         return r
 
-    def permute(self, n, what):
-        r = self.inner.permute(n, what)
+    def permute(self, n, what, path=''):
+        r = self.inner.permute(n, what, path)
         if r is not None and list(r) != list(range(n)):
             self._note('permuted_' + what)
+        self.script['P' + path] = None if r is None else list(r)
         return r
+
+
+def _seg_tree(x):
+    if x is None:
+        return None
+    return [(int(n), _seg_tree(sub)) for n, sub in x]
+
+
+class Replay(object):
+    """Chooser that replays a Recording.script for the same (T, v). Decisions are looked up by path; a decision
+    the script does not hold is taken canonically. Overrides neutralise one feature of the variant:
+    definite_any - explicit wrappers of ANY get definite length; flat_bits - no nested BIT STRING segments."""
+    canonical = False
+    name = 'BER(replayed)'
+
+    def __init__(self, script, definite_any=False, flat_bits=False):
+        self.s = script
+        self.definite_any = definite_any
+        self.flat_bits = flat_bits
+
+    def indefinite(self, where, T=None, path=''):
+        if self.definite_any and T is not None and T.get('k') == 'ANY':
+            return False
+        return bool(self.s.get('I' + path, False))
+
+    def len_form(self, n, path=''):
+        pad, fl = self.s.get('L' + path, (0, False))
+        return int(pad), bool(fl)
+
+    def true_octet(self, path=''):
+        return int(self.s.get('T' + path, 0xff))
+
+    def segments(self, nbytes, is_bits, path=''):
+        r = _seg_tree(self.s.get('S' + path))
+        if r is not None and is_bits and self.flat_bits:
+            r = [(n, None) for n, _sub in r]
+        return r
+
+    def emit_default(self, path=''):
+        return bool(self.s.get('D' + path, False))
+
+    def real_shift(self, path=''):
+        return int(self.s.get('R' + path, 0))
+
+    def permute(self, n, what, path=''):
+        return self.s.get('P' + path)
 
 
 # ------------------------------------------------------------------ writer
 
-def _tl(cls, constructed, num, content, ch, indef):
+def _tl(cls, constructed, num, content, ch, indef, path=''):
     if indef:
         return ident(cls, True, num) + b'\x80' + content + b'\x00\x00'
-    pad, fl = ch.len_form(len(content))
+    pad, fl = ch.len_form(len(content), path)
     return ident(cls, constructed, num) + length(len(content), pad, fl) + content
 
 
-def _string_tlv(cls, num, data, unused, is_bits, seg, ch):
+def _string_tlv(cls, num, data, unused, is_bits, seg, ch, path=''):
     """Encode a string value (data octets; unused bit count for BIT STRING) under tag cls/num with
     the segmentation tree seg (None = primitive; else [(size, subtree), ...])."""
+    if seg is not None and is_bits and unused:
+        # 8.6.4: only the last fragment may have unused bits, so it cannot be an empty one
+        seg = list(seg)
+        while seg and seg[-1][0] == 0:
+            seg.pop()
+        if not seg:
+            seg = None
     if seg is None:
         content = (bytes([unused]) + data) if is_bits else data
-        return _tl(cls, False, num, content, ch, False)
+        return _tl(cls, False, num, content, ch, False, path)
     parts = b''
     pos = 0
     for i, (size, sub) in enumerate(seg):
         piece = data[pos:pos + size]
         pos += size
         last = (i == len(seg) - 1)
-        parts += _string_tlv('U', 3 if is_bits else 4, piece, unused if last else 0, is_bits, sub, ch)
+        parts += _string_tlv('U', 3 if is_bits else 4, piece, unused if last else 0, is_bits, sub, ch,
+                             '%s~%d' % (path, i))
     assert pos == len(data), (pos, len(data), seg)
-    return _tl(cls, True, num, parts, ch, ch.indefinite('string'))
+    return _tl(cls, True, num, parts, ch, ch.indefinite('string', None, path), path)
 
 
 def sort_key_tag(tag):
@@ -347,57 +414,59 @@ def _min_tag(T):
     return min(ft, key=sort_key_tag)
 
 
-def encode(T, v, ch):
+def encode(T, v, ch, path=''):
     stack, has_base = tag_stack(T)
     k = T['k']
     if k == 'CHOICE':
         name, inner_v = v
         alt = [a for a in T['alts'] if a['name'] == name][0]
-        inner = encode(alt['t'], inner_v, ch)
+        inner = encode(alt['t'], inner_v, ch, path + '/' + name)
         wrappers = stack
     elif k == 'ANY':
         inner = bytes(v)
         wrappers = stack
     else:
-        inner = _encode_base(T, v, stack[-1], ch)
+        inner = _encode_base(T, v, stack[-1], ch, path)
         wrappers = stack[:-1]
-    for cls, num in reversed(wrappers):
-        inner = _tl(cls, True, num, inner, ch, ch.indefinite('explicit'))
+    for i, (cls, num) in enumerate(reversed(wrappers)):
+        wp = '%s@%d' % (path, i)
+        inner = _tl(cls, True, num, inner, ch, ch.indefinite('explicit', T, wp), wp)
     return inner
 
 
-def _encode_base(T, v, tag, ch):
+def _encode_base(T, v, tag, ch, path=''):
     k = T['k']
     cls, num = tag
     if k == 'BOOLEAN':
-        return _tl(cls, False, num, bytes([ch.true_octet() if v else 0]), ch, False)
+        return _tl(cls, False, num, bytes([ch.true_octet(path) if v else 0]), ch, False, path)
     if k in ('INTEGER', 'ENUMERATED'):
-        return _tl(cls, False, num, int_content(v), ch, False)
+        return _tl(cls, False, num, int_content(v), ch, False, path)
     if k == 'NULL':
-        return _tl(cls, False, num, b'', ch, False)
+        return _tl(cls, False, num, b'', ch, False, path)
     if k == 'OID':
-        return _tl(cls, False, num, oid_content(v), ch, False)
+        return _tl(cls, False, num, oid_content(v), ch, False, path)
     if k == 'REAL':
-        return _tl(cls, False, num, real_content(v, ch.real_shift()), ch, False)
+        return _tl(cls, False, num, real_content(v, ch.real_shift(path)), ch, False, path)
     if k == 'BITSTRING':
         unused, data = bits_content(v)
-        return _string_tlv(cls, num, data, unused, True, ch.segments(len(data), True), ch)
+        return _string_tlv(cls, num, data, unused, True, ch.segments(len(data), True, path), ch, path)
     if k == 'OCTETSTRING':
         data = bytes(v)
-        return _string_tlv(cls, num, data, 0, False, ch.segments(len(data), False), ch)
+        return _string_tlv(cls, num, data, 0, False, ch.segments(len(data), False, path), ch, path)
     if k in CHAR_KINDS:
         data = char_content(k, v)
-        return _string_tlv(cls, num, data, 0, False, ch.segments(len(data), False), ch)
+        return _string_tlv(cls, num, data, 0, False, ch.segments(len(data), False, path), ch, path)
     if k in RECORD_KINDS:
         items = []
         for c in T['comps']:
+            cp = path + '/' + c['name']
             if c['name'] in v:
                 cv = v[c['name']]
-                if c['p'] == 'def' and _same_value(c['t'], cv, c['d']) and not ch.emit_default():
+                if c['p'] == 'def' and _same_value(c['t'], cv, c['d']) and not ch.emit_default(cp):
                     continue
-                items.append((c, encode(c['t'], cv, ch)))
-            elif c['p'] == 'def' and ch.emit_default():
-                items.append((c, encode(c['t'], c['d'], ch)))
+                items.append((c, encode(c['t'], cv, ch, cp)))
+            elif c['p'] == 'def' and ch.emit_default(cp):
+                items.append((c, encode(c['t'], c['d'], ch, cp)))
             elif c['p'] == 'req':
                 raise ValueError('required component %s missing' % c['name'])
         if k == 'SET':
@@ -409,22 +478,22 @@ def _encode_base(T, v, tag, ch):
                     # 10.3: ordered by the tag actually encoded
                     items.sort(key=lambda it: sort_key_tag(_outer_tag_of_encoding(it[1])))
             else:
-                perm = ch.permute(len(items), 'set')
-                if perm is not None:
+                perm = ch.permute(len(items), 'set', path)
+                if perm is not None and sorted(perm) == list(range(len(items))):
                     items = [items[i] for i in perm]
         body = b''.join(e for _, e in items)
-        return _tl(cls, True, num, body, ch, ch.indefinite(k))
+        return _tl(cls, True, num, body, ch, ch.indefinite(k, T, path), path)
     if k in OF_KINDS:
-        encs = [encode(T['of'], x, ch) for x in v]
+        encs = [encode(T['of'], x, ch, '%s/%d' % (path, i)) for i, x in enumerate(v)]
         if k == 'SETOF':
             if ch.canonical:
                 mx = max([len(e) for e in encs] or [0])
                 encs.sort(key=lambda e: e.ljust(mx, b'\x00'))      # 11.6
             else:
-                perm = ch.permute(len(encs), 'setof')
-                if perm is not None:
+                perm = ch.permute(len(encs), 'setof', path)
+                if perm is not None and sorted(perm) == list(range(len(encs))):
                     encs = [encs[i] for i in perm]
-        return _tl(cls, True, num, b''.join(encs), ch, ch.indefinite(k))
+        return _tl(cls, True, num, b''.join(encs), ch, ch.indefinite(k, T, path), path)
     raise ValueError('kind %r' % k)
 
 
